@@ -2,6 +2,7 @@ package engine
 
 import (
 	"runtime"
+	"unsafe"
 
 	"apdsim/plan"
 
@@ -35,6 +36,7 @@ type schedTask struct {
 	opSteps  uint64
 	opBudget uint64
 	lastSite int32
+	waitAddr unsafe.Pointer // simulated lock this task waits for
 }
 
 type switchEvent struct {
@@ -83,8 +85,79 @@ func init() {
 	}
 }
 
-// InstallHook activates the yield hook.
-func InstallHook() { apd.VerifHook = hook }
+// InstallHook activates the yield hook and the simulated-lock hooks.
+func InstallHook() {
+	apd.VerifHook = hook
+	apd.VerifWait = simWait
+	apd.VerifWake = simWake
+}
+
+type deadlockSentinel struct{}
+
+var (
+	sDeadlock    bool
+	sLockWaits   uint64
+	sDeadlockOps []int32 // operation in flight per task when the deadlock was detected
+)
+
+// simWait is called by a simulated lock that the running task cannot take.
+//
+//go:norace
+func simWait(addr unsafe.Pointer) {
+	if sMode != modeSched {
+		// one task: nobody else can release the lock (recursive locking)
+		panic(deadlockSentinel{})
+	}
+	t := sTasks[sTurn]
+	if sDeadlock {
+		t.waitAddr = nil
+		panic(deadlockSentinel{})
+	}
+	t.waitAddr = addr
+	sLockWaits++
+	to := nextRunnable(t.id)
+	if to < 0 {
+		// every live task waits for a lock
+		sDeadlockOps = append(sDeadlockOps[:0], sInOp...)
+		sDeadlock = true
+		sAbort = true
+		t.waitAddr = nil
+		panic(deadlockSentinel{})
+	}
+	if sMonitor != nil {
+		sMonitor()
+	}
+	sSwitches++
+	sEvHash = plan.Mix(sEvHash ^ uint64(t.id)<<48 ^ t.steps<<8 ^ 0xfe<<40 ^ uint64(to))
+	if sKeepLog {
+		sEvLog = append(sEvLog, switchEvent{t.id, t.steps, -1, to, sClock})
+	}
+	sTurn = to
+	for sTurn != t.id {
+		runtime.Gosched()
+	}
+	t.waitAddr = nil
+	if sDeadlock {
+		panic(deadlockSentinel{})
+	}
+}
+
+// simWake makes the tasks that wait for addr runnable again.
+//
+//go:norace
+func simWake(addr unsafe.Pointer) {
+	if sMode != modeSched {
+		return
+	}
+	for _, t := range sTasks {
+		if t.waitAddr == addr {
+			t.waitAddr = nil
+		}
+	}
+}
+
+//go:norace
+func deadlocked() bool { return sDeadlock }
 
 //go:norace
 func hook(site int32) {
@@ -135,6 +208,18 @@ func hook(site int32) {
 func nextRunnable(after int) int {
 	n := len(sTasks)
 	for i := 0; i < n; i++ {
+		if !sTasks[i].done && i != after && sTasks[i].waitAddr == nil {
+			return i
+		}
+	}
+	return -1
+}
+
+// anyLive reports a task that is not done (it may be waiting for a lock).
+//
+//go:norace
+func anyLive(after int) int {
+	for i := range sTasks {
 		if !sTasks[i].done && i != after {
 			return i
 		}
@@ -144,7 +229,7 @@ func nextRunnable(after int) int {
 
 //go:norace
 func switchTo(me *schedTask, to int, site int32) {
-	if to < 0 || to >= len(sTasks) || sTasks[to].done || to == me.id {
+	if to < 0 || to >= len(sTasks) || sTasks[to].done || to == me.id || sTasks[to].waitAddr != nil {
 		if to == me.id {
 			return
 		}
@@ -191,6 +276,15 @@ func finish(me int) {
 		sMonitor()
 	}
 	to := nextRunnable(me)
+	if to < 0 {
+		if w := anyLive(me); w >= 0 {
+			// the remaining tasks all wait for locks nobody will release
+			sDeadlockOps = append(sDeadlockOps[:0], sInOp...)
+			sDeadlock = true
+			sAbort = true
+			to = w
+		}
+	}
 	if to >= 0 {
 		sEvHash = plan.Mix(sEvHash ^ uint64(me)<<48 ^ t.steps<<8 ^ 0xff<<40 ^ uint64(to))
 		sTurn = to
@@ -231,6 +325,8 @@ func resetSched(n int, sch *plan.Schedule, keepLog bool) {
 	sEvLog = sEvLog[:0]
 	sKeepLog = keepLog
 	sAbort = false
+	sDeadlock = false
+	sLockWaits = 0
 }
 
 //go:norace
